@@ -24,7 +24,7 @@ SPEC = {
     "assumptions": ["algosdk.atomic_transaction_composer as the ARC-4 client", "algosdk.abi codec", "vlib/avm.py"],
     "min_evaluations": {"quick": 1500, "thorough": 15000},
     "must_reach": ["call_ok", "over_15_args", "txn_param_calls", "ref_param_calls", "wrong_txn_type_rejected", "contract_ok", "nonvoid_return_ok", "overriding_name_ok",
-                   "same_sub_twice_ok"],
+                   "same_sub_twice_ok", "grown_after_first_build"],
     "shard_timeout": {"quick": 900, "thorough": 7200},
 }
 
@@ -193,6 +193,10 @@ def check_router(pt, acc, cl, rng, case):
                 name2 = "again%d" % i
                 r.add_method_handler(sub, overriding_name=name2)
                 expected.append((name2, sig, retval))
+            if case.get("grow") and i == 0 and len(methods) > 1:
+                # the router is built once before the remaining methods are registered: the final build must describe all of them
+                r.compile_program(version=version)
+                acc.counters["grown_after_first_build"] += 1
         ap, clear, contract = r.compile_program(version=version)
     except PT_ERRORS as e:
         acc.counters["router_rejected:" + type(e).__name__] += 1
@@ -333,11 +337,11 @@ def run_shard(shard):
     cl = Client()
     if "replay" in shard:
         c = shard["replay"]
-        check_router(pt, acc, cl, rng_for(0, "replay"), {k: c[k] for k in ("methods", "version", "twice") if k in c})
+        check_router(pt, acc, cl, rng_for(0, "replay"), {k: c[k] for k in ("methods", "version", "twice", "grow") if k in c})
         return acc.result()
     rng = rng_for(shard["seed"], "c09", shard["shard"])
     for i in range(shard["n"]):
-        case = {"methods": [gen_sig(rng) for _ in range(rng.choice([1, 1, 2, 3]))], "version": rng.choice([6, 7, 8, 9, 10]), "twice": rng.random() < .2}
+        case = {"methods": [gen_sig(rng) for _ in range(rng.choice([1, 1, 2, 3]))], "version": rng.choice([6, 7, 8, 9, 10]), "twice": rng.random() < .2, "grow": rng.random() < .3}
         check_router(pt, acc, cl, rng, case)
     return acc.result()
 
